@@ -7,6 +7,7 @@ import json
 
 from ..cfg import CFG, typestate, witness, calls_at, path_summaries
 from ..loader import AnalysisError, Repo, body_nodoc, dotted, norm, walk_no_nested, enclosing, qualname, strip_cast, parent
+from ..lints import no_swallow
 from ..report import Report, VERIF
 
 LEVEL = "other"
@@ -31,6 +32,8 @@ def run(repo: Repo, rep: Report, tier: str) -> None:
     rep.rule("identity-verdict", "_check_user_identity accepts only on: no identity item, no handler bound (NotImplementedError), or a truthy verdict without exception")
     rep.rule("no-handler-after-reject", "DIMSE service handlers are reachable only through the established-association reactor")
     rep.rule("title-strip", "AE titles decoded from an A-ASSOCIATE-RQ have leading/trailing spaces removed before comparison")
+    rep.rule("item-not-dropped", "no except clause in the PDU codec swallows a failed item conversion: a received identity / negotiation item is converted or the PDU fails")
+    rep.floor("codec except clauses", no_swallow(repo, rep, "item-not-dropped"), 3)
     sp = json.loads((VERIF / "spec" / "ps3_8_fsm.json").read_text())["rj_codes"]
     acse = repo.mod("acse")
     fn = repo.func("acse", "ACSE._negotiate_as_acceptor")
